@@ -62,7 +62,7 @@ class NS(dict):
         self["loads"] = json.loads
         self["__builtins__"] = __builtins__
         self["__name__"] = "emitted"
-        for n in ("np", "tf", "os", "Optimizer", "stdout", "foo", "pickle"):
+        for n in ("np", "tf", "os", "Optimizer", "Model", "stdout", "foo", "pickle", "n", "x"):
             self[n] = Sym(n)
 
     def __missing__(self, k):
